@@ -262,7 +262,7 @@ Next ==
     \/ OpTrim \/ OpReverse \/ OpDone \/ OpDel \/ OpDup
     \/ \E k \in {"lit", "s"}, t \in TextsWide : OpSprintf(k, t, 0)
     \/ \E t \in TextsWide : OpReinit("ptr", "-", t) \/ OpReinit("buff", "-", t)
-    \/ \E t \in TextsW : OpReinit("ptr", "-", t)
+    \/ \E t \in {x \in TextsW : ~Wide} : OpReinit("ptr", "-", t)
     \/ \E k \in {"-"}, t \in {x \in TextsWide : x = <<>>} : OpReinit("init", k, t)
     \/ \E k \in Kinds, t \in {x \in TextsWide : x \in StreamTexts} : OpReinit("fp", k, t) \/ OpReinit("fd", k, t)
     \/ \E i \in IdxWide, c \in Cnt : OpSubbuff(i, c)
